@@ -171,8 +171,10 @@ class Runner:
         if kind == 'asyncio':
             kw['coroutine_handlers'] = True
         disc_raises = kw.pop('disc_raises', False)
+        disc_suspends = kw.pop('disc_suspends', 0)
         self.d = rt.DRIVERS[kind](**kw)
         self.d.raise_in_disconnect = disc_raises
+        self.d.suspend_in_disconnect = disc_suspends / TICK     # such runs are judged by the oracles only: the model's handlers do not suspend
         self.sids = []            # model index -> real sid (or None while unknown)
         self.sid_ix = {}
         self.rids, self.cids, self.aids = {}, {}, {}
